@@ -16,20 +16,21 @@ import (
 
 // known-finding ids (see /verif/findings.d/c13.json)
 const (
-	fCond   = "C13-func-in-condition"                          // funcmap functions are invisible to v-if / v-else-if / v-show
-	fNest   = "C13-func-under-operator"                        // funcmap functions cannot be called inside an operator expression
-	fErrC   = "C13-func-error-in-condition"                    // failing function call in a condition is swallowed
-	fBNeg   = "C13-bare-negation"                              // {{ !x }} / :a="!x" print nothing
-	fShowN  = "C13-vshow-negation-nonbool"                     // v-show="!z" hides for falsy non-bool z while v-if="!z" shows
-	fQVar   = "C13-quoted-arg-reinterpreted"                   // f("a") passes the value of variable a; " x " -> "x"; "'q'" -> q
-	fWhole  = "C13-whole-expression-call-bypasses-evaluator"   // {{ upper(lower(h)) }} prints LOWER(H), {{ max(a, b) }}: function not found
-	fPipeIn = "C13-call-as-pipe-input-swallows-error"          // {{ safe(bad) | upper }} renders empty, {{ add(1) | string }} prints <nil>
-	fInnerB = "C13-registered-builtin-name-nested-in-call"     // isBig(sum(a, 1, b)) with a registered sum does not compile
-	fInnerU = "C13-unknown-function-nested-in-call"            // v-if="upper(nosuch(s))" is silently false
-	fArgNm  = "C13-missing-variable-argument-becomes-its-name" // {{ default(nope, 'fb') }} prints nope
-	fTagEl  = "C13-tagged-field-of-slice-element"              // team[0].age + 1 fails where team is a slice of structs with JSON tags
-	fNegEr  = "C13-func-error-after-leading-negation"          // {{ !t || fail(a) }} prints a value instead of failing
-	fBoolN  = "C13-arg-variable-named-like-bool"               // f(t) / f(f): a variable named t or f is read as the literal true / false
+	fCond    = "C13-func-in-condition"                          // funcmap functions are invisible to v-if / v-else-if / v-show
+	fNest    = "C13-func-under-operator"                        // funcmap functions cannot be called inside an operator expression
+	fErrC    = "C13-func-error-in-condition"                    // failing function call in a condition is swallowed
+	fBareLit = "C13-bare-literal-in-mustache-prints-nothing"    // {{ 5 }} / title="{{ 5 }}" print nothing
+	fBNeg    = "C13-bare-negation"                              // {{ !x }} / :a="!x" print nothing
+	fShowN   = "C13-vshow-negation-nonbool"                     // v-show="!z" hides for falsy non-bool z while v-if="!z" shows
+	fQVar    = "C13-quoted-arg-reinterpreted"                   // f("a") passes the value of variable a; " x " -> "x"; "'q'" -> q
+	fWhole   = "C13-whole-expression-call-bypasses-evaluator"   // {{ upper(lower(h)) }} prints LOWER(H), {{ max(a, b) }}: function not found
+	fPipeIn  = "C13-call-as-pipe-input-swallows-error"          // {{ safe(bad) | upper }} renders empty, {{ add(1) | string }} prints <nil>
+	fInnerB  = "C13-registered-builtin-name-nested-in-call"     // isBig(sum(a, 1, b)) with a registered sum does not compile
+	fInnerU  = "C13-unknown-function-nested-in-call"            // v-if="upper(nosuch(s))" is silently false
+	fArgNm   = "C13-missing-variable-argument-becomes-its-name" // {{ default(nope, 'fb') }} prints nope
+	fTagEl   = "C13-tagged-field-of-slice-element"              // team[0].age + 1 fails where team is a slice of structs with JSON tags
+	fNegEr   = "C13-func-error-after-leading-negation"          // {{ !t || fail(a) }} prints a value instead of failing
+	fBoolN   = "C13-arg-variable-named-like-bool"               // f(t) / f(f): a variable named t or f is read as the literal true / false
 )
 
 type gen struct {
@@ -59,7 +60,7 @@ func (g *gen) paths(t *rapid.T, base, fnNamed []string) []string {
 func newGen(rec *ev.Rec) *gen {
 	f := kf.Load()
 	g := &gen{rec: rec, open: map[string]bool{}}
-	for _, id := range []string{fCond, fNest, fErrC, fBNeg, fShowN, fQVar, fBoolN, fNegEr, fTagEl, fWhole, fPipeIn, fInnerU, fInnerB, fArgNm} {
+	for _, id := range []string{fCond, fNest, fErrC, fBNeg, fShowN, fQVar, fBoolN, fNegEr, fTagEl, fWhole, fPipeIn, fInnerU, fInnerB, fArgNm, fBareLit} {
 		g.open[id] = f.Open(id)
 	}
 	return g
